@@ -51,6 +51,24 @@ def generate(rng, tier, shard, nshards):
     n = 2500 if tier == 'quick' else 50000
     for i in range(n):
         r = rng.random()
+        if i % 8 == 3:
+            # points and lines are cheap: many of them with one end exactly on / one ulp off a pixel edge and the other end anywhere
+            def coord():
+                k = rng.choice([rng.randint(-60, 60), rng.randint(-3000, 3000)]) + 0.5
+                return k + _delta(rng.choice(['0', '0', '-ulp', '+ulp', '+2e-12', '-2e-12']), k, rng), rng.choice([-1, 1]) * gen.logu(rng, 1e-3, 3e3)
+            (ax, bx), (ay, by) = coord(), coord()
+            if rng.random() < 0.5:
+                ax, bx = bx, ax
+            if rng.random() < 0.5:
+                ay, by = by, ay
+            if rng.random() < 0.25:
+                reg = S.reg(rng.choice(['PointPixelRegion', 'TextPixelRegion']), center=S.pix(ax, ay))
+                if reg['cls'] == 'TextPixelRegion':
+                    reg['p']['text'] = 't'
+            else:
+                reg = S.reg('LinePixelRegion', start=S.pix(ax, ay), end=S.pix(bx, by))
+            yield {'lane': 'edge-line', 'region': reg, 'rs': rng.randrange(2 ** 31)}
+            continue
         if r < 0.35:
             yield {'lane': 'random', 'region': gen.pixel_region_spec(rng), 'rs': rng.randrange(2 ** 31)}
         elif r < 0.45:
@@ -165,7 +183,7 @@ def run_case(case, obs):
         return monitors.replay_suite_case(case, obs)
     lane = case['lane']
     prng = random.Random(case['rs'])
-    if lane in ('random', 'compound'):
+    if lane in ('random', 'compound', 'edge-line'):
         region = S.build(case['region'])
         mark_exact(region, obs)
         bb = region.bounding_box          # judged by the monitor
@@ -215,6 +233,10 @@ def run_case(case, obs):
     sx = tx - (x0 if case['sidex'] == 'min' else x1)
     sy = ty - (y0 if case['sidey'] == 'min' else y1)
     spec = shift_spec(base, sx, sy)
+    if cls in ('LinePixelRegion', 'PolygonPixelRegion') and not case['exactish'] and 'origin' not in spec['p']:
+        # the aligned coordinate stays where it is; every other coordinate is redrawn independently (a common shift would tie
+        # all coordinates to each other by the same rounding, which hides errors of the kind a + (b - a) != b)
+        decorrelate(spec, prng, case['sidex'], case['sidey'])
     region = S.build(spec)
     mark_exact(region, obs)
     bb = region.bounding_box              # judged by the monitor
@@ -222,6 +244,29 @@ def run_case(case, obs):
     ny, nx = bb.shape
     if cls in gen.MASKABLE and 0 < nx * ny <= 20000:
         region.to_mask(mode='center')
+
+
+def decorrelate(spec, prng, sidex, sidey):
+    p = spec['p']
+    if 'vertices' in p:
+        for ax, side in (('x', sidex), ('y', sidey)):
+            a = list(p['vertices'][ax]['a'])
+            k = a.index(min(a) if side == 'min' else max(a))
+            for i in range(len(a)):
+                if i != k:
+                    d = gen.logu(prng, 1e-3, 80) * prng.choice([1.0, 1.0, 1.7320508])
+                    a[i] = a[k] + d if side == 'min' else a[k] - d
+            p['vertices'][ax] = S.arr_spec(np.array(a, dtype=float))
+        return
+    for ax, side in (('x', sidex), ('y', sidey)):
+        s_, e_ = p['start'][ax], p['end'][ax]
+        ext = min(s_, e_) if side == 'min' else max(s_, e_)
+        d = gen.logu(prng, 1e-3, 80) * prng.choice([1.0, 1.0, 1.7320508])
+        other = ext + d if side == 'min' else ext - d
+        if (s_ == ext) and prng.random() < 0.5 or e_ != ext:
+            p['start'][ax], p['end'][ax] = ext, other
+        else:
+            p['start'][ax], p['end'][ax] = other, ext
 
 
 def shift_spec(spec, sx, sy):
